@@ -116,7 +116,9 @@ Record wf2 (c : cfg) (a : acct) : Prop := mkWf2 {
   w2_max : count_of a <= Z.max 0 (max_rules c);
   w2_fps_in : forall r, In r (a_rules a) -> has_fp (a_fps a) (fp_of r) = true;
   w2_fps_inj : forall r1 r2, In r1 (a_rules a) -> In r2 (a_rules a) ->
-                 fp_eqb (fp_of r1) (fp_of r2) = true -> r1 = r2 }.
+                 fp_eqb (fp_of r1) (fp_of r2) = true -> r1 = r2;
+  (* ... and nothing else: every stored fingerprint belongs to a stored rule *)
+  w2_fps_from : forall f, In f (a_fps a) -> exists r, In r (a_rules a) /\ fp_eqb f (fp_of r) = true }.
 
 Lemma wf2_acct0 c : wf2 c acct0.
 Proof.
@@ -127,6 +129,7 @@ Proof.
   - lia.
   - intros r [].
   - intros r1 r2 [].
+  - intros f [].
 Qed.
 
 Lemma validate_ok c s p u :
@@ -195,6 +198,13 @@ Proof.
     + exfalso. rewrite (has_fp_compat _ _ _ E (w2_fps_in c a W2 y Hy')) in Hnew. discriminate.
     + exfalso. rewrite (has_fp_compat _ _ _ (fp_eqb_sym _ _ E) (w2_fps_in c a W2 x Hx')) in Hnew. discriminate.
     + apply (w2_fps_inj c a W2 x y Hx' Hy' E).
+  - intros g Hg. apply filter_In in Hg. destruct Hg as [Hg Hng]. apply negb_true_iff in Hng.
+    destruct Hg as [<-|Hg].
+    + exists r'. split; [apply (In_set_rule r r' _ Hr Hid)|apply fp_eqb_refl].
+    + destruct (w2_fps_from c a W2 g Hg) as [x [Hx Ex]]. exists x. split; [|exact Ex].
+      apply In_set_rule_other; [exact Hx|]. intros Hidx.
+      assert (x = r) by (apply (wf_id_inj a x r W Hx Hr); congruence). subst x.
+      rewrite (fp_eqb_sym _ _ Ex) in Hng. discriminate.
 Qed.
 
 Ltac inv_bind H :=
@@ -297,6 +307,11 @@ Proof.
     + exfalso. rewrite Hfp in E. apply Hny. rewrite <- (w2_fps_inj c a W2 r y Hr Hy' E). auto.
     + exfalso. rewrite Hfp in E. apply Hnx. rewrite (w2_fps_inj c a W2 x r Hx' Hr E). auto.
     + apply (w2_fps_inj c a W2 x y Hx' Hy' E).
+  - intros g Hg. destruct (w2_fps_from c a W2 g Hg) as [x [Hx Ex]].
+    destruct (Z.eq_dec (r_id x) (r_id r')) as [Hidx|Hidx].
+    + assert (x = r) by (apply (wf_id_inj a x r W Hx Hr); congruence). subst x.
+      exists r'. split; [apply (In_set_rule r r' _ Hr Hid)|rewrite Hfp; exact Ex].
+    + exists x. split; [apply In_set_rule_other; assumption|exact Ex].
 Qed.
 
 Lemma wf2_update_name c a id name a' r l :
@@ -350,6 +365,9 @@ Proof.
     + pose proof (fp_eqb_sym _ _ E) as E'. rewrite (Hfresh x Hx) in E'. discriminate.
     + rewrite (Hfresh y Hy) in E. discriminate.
     + reflexivity.
+  - intros g [<-|Hg].
+    + exists r. split; [apply in_or_app; right; left; reflexivity|apply fp_eqb_refl].
+    + destruct (w2_fps_from c a W2 g Hg) as [x [Hx Ex]]. exists x. split; [apply in_or_app; left; exact Hx|exact Ex].
 Qed.
 
 Lemma del_rule_length a id r :
@@ -391,6 +409,12 @@ Proof.
     destruct (fp_eqb (fp_of r) (fp_of x)) eqn:E; [|reflexivity].
     exfalso. apply Hn. rewrite <- (w2_fps_inj c a W2 r x Hr Hx' E). exact Hid.
   - intros x y Hx Hy. apply (w2_fps_inj c a W2); apply Hin; assumption.
+  - intros g Hg. apply filter_In in Hg. destruct Hg as [Hg Hng]. apply negb_true_iff in Hng.
+    destruct (w2_fps_from c a W2 g Hg) as [x [Hx Ex]]. exists x. split; [|exact Ex].
+    unfold del_rule. apply filter_In. split; [exact Hx|]. apply negb_true_iff. apply Z.eqb_neq. intros Hidx.
+    assert (x = r) by (apply (wf_id_inj a x r W Hx Hr); congruence). subst x.
+    change (r_type r, r_signers r, r_policies r) with (fp_of r) in Hng.
+    rewrite (fp_eqb_sym _ _ Ex) in Hng. discriminate.
 Qed.
 
 Lemma wf2_run_op O c a now op a' ret l : wf a -> wf2 c a -> run_op O c a now op = Ok (a', ret, l) -> wf2 c a'.
